@@ -683,6 +683,21 @@ def run(ctx: Context, R: Reporter):
     R.guard(rule_f, ctx, R, fin, rw)
 
 
+def _memo_variant(key_expr: str):
+    """A memo of _compute_metric_and_weights kept for one run() call (reset first thing in run), keyed by `key_expr`."""
+    from ..variants import chain, insert_after, insert_before, replace_stmt
+
+    rw = "tempest/steps/reweight.py"
+    return chain(
+        insert_after(rw, "Reweighter.__init__", "self.BETA_TOLERANCE = BETA_TOLERANCE", "self._evaluations = {}"),
+        insert_before(rw, "Reweighter._compute_metric_and_weights", "logw, _ = self.state.compute_logw_and_logz(beta)",
+                      f"key = {key_expr}\nif key in self._evaluations:\n    return self._evaluations[key]"),
+        replace_stmt(rw, "Reweighter._compute_metric_and_weights", "return (weights, ess_est, metric_val)",
+                     "self._evaluations[key] = (weights, ess_est, metric_val)\nreturn (weights, ess_est, metric_val)"),
+        insert_before(rw, "Reweighter.run", "iter_val = self.state.get_current('iter') + 1", "self._evaluations = {}"),
+    )
+
+
 def variants():
     from ..variants import Variant, alpha_rename, delete_stmt, insert_after, insert_before, replace_expr, replace_stmt
 
@@ -692,6 +707,13 @@ def variants():
         Variant("a-first-iteration-by-counter", "bad", replace_expr(rw, "Reweighter.run", "self.state.get_history_length() == 0", "iter_val == 1"), ["C05.a"], quick=True),
         Variant("a-benign-first-iteration-not-length", "benign", replace_expr(rw, "Reweighter.run", "self.state.get_history_length() == 0", "not self.state.get_history_length()")),
         Variant("g-benign-per-step-scratch", "benign", _scratch_variant()),
+        # per-call memo of the evaluations: an exact key (scalar or composite) hands back what was computed at that beta;
+        # a lossy key hands back values of a neighbouring temperature
+        Variant("a-benign-memo-exact-scalar-key", "benign", _memo_variant("beta")),
+        Variant("a-benign-memo-exact-composite-key", "benign", _memo_variant("(beta, self.volume_variation)"), quick=True),
+        Variant("a-memo-key-on-tolerance-grid", "bad", _memo_variant("int(round(beta / self.BETA_TOLERANCE))"), ["C05.a"], quick=True),
+        Variant("a-memo-composite-key-rounded-beta", "bad", _memo_variant("(round(beta, 3), self.volume_variation)"), ["C05.a"], quick=True),
+        Variant("a-memo-composite-key-without-beta", "bad", _memo_variant("(self.volume_variation, self.n_particles)"), ["C05.a"]),
         Variant("g-reweighter-keeps-first-logw", "bad", insert_after(rw, "Reweighter._compute_metric_and_weights", "logw, _ = self.state.compute_logw_and_logz(beta)", "if getattr(self, '_lw', None) is None:\n    self._lw = logw\nlogw = self._lw"), ["C05.g"], quick=True),
         Variant("a-weights-of-upper", "bad", replace_stmt(rw, "Reweighter.run", "weights = weights_prev", "weights = weights_upper"), ["C05.a"], quick=True),
         Variant("a-ess-of-prev", "bad", replace_stmt(rw, "Reweighter.run", "ess_est = ess_upper", "ess_est = ess_prev"), ["C05.a"]),
